@@ -115,7 +115,7 @@ ADDENDA = {
  "C10": " Ordered groups that begin with, or list later, an edge walked backwards.",
  "C01": " Tags named like a predefined tag of the other version or like a field alias (LN on a GFA2 segment); custom record types of several letters before / after the version is known.",
  "C02": " Also: the same search from the fully loaded universes (`@full`, depth 3 quick / 4 thorough), and lines that are refused only after their first references were resolved, offered in every state in which they are refused. Operations that name an unnamed link / containment and delete its ID; continuation lines of a multi-line group that add, then contradict a tag; removed Line objects added again. Operation conv over a convertible GFA1 universe (to_gfa2_s assigns IDs to the unnamed links of the source, which must stay closed, symmetric and found under those IDs); operation addshare (a line built through the API whose field value is the very object another line holds; the state key tells shared objects from equal values); a model-free namespace-coherence clause.",
- "C03": " Seed documents with two paths over one link in opposite directions and asymmetric CIGARs, link written in either form. Selected seeds also at validation levels 0 and 3, one seed with valid non-canonical lazily parsed tags on lines queued while the version is unknown. The lines of the GFA2 seeds also arrive, in all orders, in a Gfa produced by to_gfa2().",
+ "C03": " A path over a hairpin link with an asymmetric CIGAR: the overlap as read along the path is part of the observation compared between orders. Seed documents with two paths over one link in opposite directions and asymmetric CIGARs, link written in either form. Selected seeds also at validation levels 0 and 3, one seed with valid non-canonical lazily parsed tags on lines queued while the version is unknown. The lines of the GFA2 seeds also arrive, in all orders, in a Gfa produced by to_gfa2().",
  "C04": " The `$` rule with the judged segment on either side of the edge and the other side with / without a sequence. The verdict of every document-table entry must be the same through Gfa(list), Gfa(string) and Gfa.from_file; lines ending in blanks / tabs.",
  "C05": " Also from the fully loaded universes (`@full`), with the operations `nameit` (give an unnamed line an identifier) and delete of the ID tag of a link / containment. Operations addclone (clone of a segment added as Line object), readd (a removed Line object added again), set(tag, None); the core specs also from their loaded universe.",
  "C06": " Path cases also with the path arriving before its links and together with the path walking the same links backwards. Header tag sets and comments in both directions (to_gfaN and to_gfaN_s); line-level to_gfa2_s of paths before / after their unnamed links, assembled and validated. A path moved from one Gfa to another is converted as a line of the Gfa it is in (differential against the same text parsed afresh). Ordered groups that walk over a containment or an internal alignment: dropped by the graph conversion, refused line by line, never written as a P line.",
